@@ -736,7 +736,9 @@ class PandasModelBase(
                 )
             subframe[standin_name] = 1
             if len(op.partition_by) > 0:
-                opframe = subframe.groupby(op.partition_by, observed=True)
+                opframe = subframe.groupby(
+                    op.partition_by, observed=True, dropna=False
+                )
                 #  Groupby preserves the order of rows within each group.
                 # https://pandas.pydata.org/pandas-docs/stable/reference/api/pandas.DataFrame.groupby.html
             else:
@@ -855,7 +857,7 @@ class PandasModelBase(
                     )
         res["_data_table_temp_col"] = 1
         if len(op.group_by) > 0:
-            res = res.groupby(op.group_by, observed=True)
+            res = res.groupby(op.group_by, observed=True, dropna=False)
         if len(op.ops) > 0:
             cols = {}
             for k, opk in op.ops.items():
